@@ -195,12 +195,8 @@ func (s *store) mutations(rnd func(id string) *rand.Rand) []mutation {
 				f[col] = nv
 				ls := copyLines()
 				ls[idx] = strings.Join(f, ",")
-				modes := []string{cpLast}
-				if class == "value-changed" {
-					modes = all
-				} else if (col+pi)%5 == 0 { // a rotating sample of malformed fields under the other placements
-					modes = all
-				}
+				// under cpmid/cpzero a malformed field beyond the checkpoint is not masked by the hash check
+				modes := all
 				out = append(out, mutation{id: id, class: class, malformed: class != "value-changed", minAff: idx, rows: n, modes: modes,
 					file: assemble(s.header, ls), note: fmt.Sprintf("row %d column %s: %q -> %q", idx+1, columns[col], old, nv)})
 			}
@@ -513,7 +509,7 @@ func (e *env) corruptionCase(caseID string, s *store, m mutation, mode string) {
 		"store_longest_rows": s.n, "store_history_hex": clipHist(s.hist), "corruption": m.id, "what": m.note,
 		"newest_checkpoint_height": cpH, "newest_checkpoint_hash": cps[len(cps)-1].Hash.String(), "refusal_required": must,
 	}
-	r.Case("cor|"+lenClass(s.n)+"|"+mode+"|"+m.id, true)
+	r.Case(fmt.Sprintf("cor|%s|n=%d|%s|%s", strings.SplitN(caseID, "/", 3)[1], s.n, mode, m.id), true)
 	r.Count("corruption_cases", 1)
 	r.Count("corruption_class_"+m.class, 1)
 
@@ -534,6 +530,7 @@ func (e *env) corruptionCase(caseID string, s *store, m mutation, mode string) {
 		switch {
 		case kinds == "" && !cpCase:
 			r.Count("accepted_and_equal_to_export", 1) // the change was harmless
+			r.Count("accepted_and_equal_"+m.class+"_"+strings.SplitN(m.id, "/", 3)[1], 1)
 		case must:
 			detail["imported_rows"] = len(got)
 			detail["difference_to_exported_chain"] = desc
